@@ -78,12 +78,14 @@ func registerExpertiseLevelOption() {
 
 func updateExpertiseLevel() {
 	// get value
+	// The user-defined value takes precedence over the default layer,
+	// like for every other option (see getValueCache).
 	value := expertiseLevelOption.activeFallbackValue
-	if expertiseLevelOption.activeValue != nil {
-		value = expertiseLevelOption.activeValue
-	}
 	if expertiseLevelOption.activeDefaultValue != nil {
 		value = expertiseLevelOption.activeDefaultValue
+	}
+	if expertiseLevelOption.activeValue != nil {
+		value = expertiseLevelOption.activeValue
 	}
 	// set atomic value
 	switch value.stringVal {
